@@ -178,6 +178,9 @@ pub struct RecDriver {
     sig_objs: Vec<Signal>,
     unknown: Signal,
     override_write: bool,
+    /// per-call storage for the signals handed out (only used with `rebuild_signals`)
+    buf: Vec<Signal>,
+    rebuild_signals: bool,
 }
 
 impl RecDriver {
@@ -191,6 +194,8 @@ impl RecDriver {
             sig_objs: cfg.iter().map(to_signal).collect(),
             unknown: Signal::output("__unknown_to_the_test__", 8),
             override_write: script.override_write,
+            buf: vec![],
+            rebuild_signals: script.rebuild_signals,
         }
     }
 
@@ -247,8 +252,25 @@ impl TestDriver for RecDriver {
         &mut self,
         inputs: &[InputEntry<'_>],
     ) -> Result<Vec<OutputEntry<'_>>, Self::Error> {
+        let call = self.shared.borrow().calls.len();
+        if self.rebuild_signals {
+            // a driver that owns a buffer of Signals which it clears and refills on every call:
+            // the i-th entry always lives at the same address, whatever signal it describes
+            return match self.do_call(inputs, true, false) {
+                DevAnswer::Err(nonce) => Err(DevError { nonce, call }),
+                DevAnswer::Outputs(o) => {
+                    self.buf.clear();
+                    for (s, _) in &o {
+                        self.buf.push(match s {
+                            DevSig::Cfg(i) => self.sig_objs[*i].clone(),
+                            DevSig::Unknown => self.unknown.clone(),
+                        });
+                    }
+                    Ok(o.into_iter().enumerate().map(|(k, (_, v))| OutputEntry { signal: &self.buf[k], value: to_out(v) }).collect())
+                }
+            };
+        }
         let this = &*self;
-        let call = this.shared.borrow().calls.len();
         match this.do_call(inputs, true, false) {
             DevAnswer::Err(nonce) => Err(DevError { nonce, call }),
             DevAnswer::Outputs(o) => Ok(o
